@@ -12,6 +12,13 @@ CHECKS = {
  "C01": ("sched+seq", "every interleaving (up to the stated preemption bound) of increments, concurrent report passes, the report loop on a virtual ticker, re-acquire reports and Close is executed on the real code and delta conservation, sign and quiescence are checked on each; increment histories over the int64 extremes are enumerated sequentially", "bounded threads/operations/ticks/preemptions; sequential consistency at sync operations"),
  "C07": ("sched", "every interleaving (up to the preemption bound) of an application goroutine cycling obtain/record/Close/re-obtain against a report pass or the real report loop is executed; sums per identity, registration of the re-obtained scope and inertness of children are checked on each", "bounded threads/operations/ticks/preemptions; one or two application threads"),
  "C08": ("sched", "every placement (up to the preemption bound) of root Close against the real report loop driven by a virtual ticker, with recorder calls as scheduling points, is executed; the ordered reporter log is checked against Close-return markers", "bounded ticks (1-2), threads and preemptions"),
+
+ "C02": ("sched+seq", "every interleaving (up to the preemption bound) of one updating goroutine with two or three concurrent report passes is executed on the real code; every delivered value is compared bit for bit with the updates, the final value and the delivery count are checked at quiescence; the float64 payload alphabet is swept sequentially", "one updating goroutine per gauge, 1-3 updates, 2-3 passes, bounded preemptions"),
+ "C03": ("seq", "the full product of bucket specifications (all sequences up to length L over a 10-letter bound alphabet, value and duration) x samples (every bound, its neighbours, extremes, non-finite floats) x delivery path (plain, cached, snapshot) is executed on the real code and compared with a sort-and-scan reference model; plus all record/pass histories up to a depth", "bounds outside the alphabet are represented by their order type; spec lengths above L only by the two 64-bound specs"),
+ "C04": ("seq", "every derivation program up to depth D over an alphabet of SubScope names and Tagged maps (nil, empty, overlapping keys, empty values), on every root configuration (prefix x separator x root tags x sanitizer), on the plain, cached and snapshot paths, is executed and compared with a list-and-overlay reference model, including mutation of caller maps after the call", "strings outside the alphabet are not covered; depth bound"),
+ "C05": ("seq", "all programs up to depth D over an alphabet built around the key format's delimiter characters are run against one root per (prefix, shard count) and compared pairwise through a reference identity; the public key function is compared with the key of the merged map for all pairs of maps", "alphabet and depth bound; map-iteration-order independence is exercised by repetition only"),
+ "C06": ("seq+sched", "the full product of all strings up to length N over a token alphabet straddling every range end-point (incl. multi-byte runes and invalid bytes) x 199 sanitizer configurations is executed and compared position by position with a decode-test-append reference; an end-to-end sweep checks every string handed to the reporter; the pooled buffer is explored under the controlled scheduler", "strings outside the token alphabet / above length N (except the 4 KiB repeats) are not covered"),
+ "C09": ("sched", "every interleaving (up to the preemption bound) of 2-3 goroutines performing first use of one counter/gauge/timer/histogram/child scope while a report pass runs is executed; object identity, allocation count and delivered sums are checked on each; a free-running -race pass covers the data-race clause", "bounded threads and preemptions"),
 }
 
 PENDING = "check not built yet (work in progress, see DESIGN.md section 7 development order)"
